@@ -4,7 +4,7 @@
     Operation [99] is the final drop of the object: its result is what the harness measures
     while dropping ([keys dropped; values dropped; double drops; live tracked objects; live
     heap blocks allocated by the object; poison damage]). *)
-From VF Require Import Base Iter Enc Lru LruStep Slru TwoQ Arc CacheStep Tiny WTiny Sampled TinyStep Sizing.
+From VF Require Import Base Iter Enc Lru LruStep Slru TwoQ Arc CacheStep Tiny WTiny Sampled TinyStep Sizing Heap HeapStep.
 Open Scope Z_scope.
 
 Inductive ustate :=
@@ -17,7 +17,8 @@ Inductive ustate :=
 | UTiny (s : tinylfu)
 | USampled (s : sampled)
 | UPutRes
-| UCtor.
+| UCtor
+| UHeap (s : hstate).
 
 Definition uinit (kind : Z) (cfg : list Z) : option ustate :=
   match kind with
@@ -30,6 +31,7 @@ Definition uinit (kind : Z) (cfg : list Z) : option ustate :=
   | 6 => option_map USampled (saminit cfg)
   | 7 => Some UPutRes
   | 8 => Some UCtor
+  | 9 => option_map UHeap (hinit cfg)
   | _ => None
   end.
 
@@ -46,6 +48,7 @@ Definition uretained (s : ustate) : nat :=
   | USampled _ => 0%nat
   | UPutRes => 0%nat
   | UCtor => 0%nat
+  | UHeap s => hretained s
   end.
 
 Definition drop_out (n : nat) : list Z := [zn n; zn n; 0; 0; 0; 0].
@@ -86,7 +89,7 @@ Definition putres_step (op : list Z) : option (ustate * list Z * list Z) :=
 
 Definition ustep (s : ustate) (op : list Z) : option (ustate * list Z * list Z) :=
   match op with
-  | [99] => Some (UDead, drop_out (uretained s), [0])
+  | [99] => Some (UDead, match s with UHeap hs => hdrop_out hs | _ => drop_out (uretained s) end, [0])
   | _ =>
     match s with
     | UDead => None
@@ -99,6 +102,7 @@ Definition ustep (s : ustate) (op : list Z) : option (ustate * list Z * list Z) 
     | USampled s => lift USampled (samstep_enc s op)
     | UPutRes => putres_step op
     | UCtor => match ctor_step op with Some out => Some (UCtor, out, [0]) | None => None end
+    | UHeap s => lift UHeap (hstep_enc s op)
     end
   end.
 
@@ -114,4 +118,5 @@ Definition usnap (s : ustate) : list Z :=
   | USampled s => samsnap s
   | UPutRes => []
   | UCtor => []
+  | UHeap s => hsnap s
   end.
